@@ -127,7 +127,7 @@ fn neutralise(src: &str) -> String {
 
 /// The first piece of code of a file, measured independently of selene's `first_code`: the statement
 /// (a final `return` / `break` included) that starts earliest.
-fn first_code_of(ast: &full_moon::ast::Ast) -> Option<(usize, usize)> {
+pub fn first_code_of(ast: &full_moon::ast::Ast) -> Option<(usize, usize)> {
     use full_moon::node::Node;
     let mut best: Option<(usize, usize)> = None;
     let mut consider = |r: Option<(full_moon::tokenizer::Position, full_moon::tokenizer::Position)>| {
